@@ -7,6 +7,7 @@ equals emboss_front_end | emboss_codegen_cpp as subprocesses."""
 import glob
 import json
 import os
+import itertools
 import subprocess
 import sys
 import tempfile
@@ -86,6 +87,7 @@ def gen_cases(tier):
     bound = 1 if tier == "quick" else 2
     k = 0
     nsub = bounds(tier)["subprocess_cases"]
+    yield {"kind": "pipeline-histories"}
     yield {"kind": "text", "files": {"m.emb": BIG}, "main": "m.emb", "label": "big-constants", "subprocess": "all"}
     yield {"kind": "text", "files": {"m.emb": IMPORT_MAIN, "imp.emb": IMPORT_IMP}, "main": "m.emb", "label": "import-family", "subprocess": "all"}
     for f in sorted(glob.glob(os.path.join(common.REPO, "testdata", "*.emb"))):
@@ -175,6 +177,84 @@ def run_subprocess_equivalence(files, main, traits=True, odd_name=False):
         shutil.rmtree(d, ignore_errors=True)
 
 
+def _both_pipelines(d, main, import_dirs, out1, out2, env):
+    """Runs embossc and front end | codegen for `main` with the given import dirs; returns an error string or None."""
+    iargs = []
+    for i in import_dirs:
+        iargs += ["-I", i]
+    r1 = subprocess.run([sys.executable, os.path.join(common.REPO, "embossc"), "--color-output", "never"] + iargs + ["--output-path", d,
+                         "--output-file", out1, main], capture_output=True, text=True, cwd=d, env=env, timeout=300)
+    fargs = []
+    for i in import_dirs:
+        fargs += ["--import-dir", os.path.join(d, i)]
+    r2 = subprocess.run([sys.executable, "-m", "compiler.front_end.emboss_front_end", "--color-output", "never"] + fargs +
+                        ["--output-file", os.path.join(d, "ir.json"), main], capture_output=True, text=True, cwd=common.REPO, env=env, timeout=300)
+    if r1.returncode != r2.returncode:
+        return "exit status differs: embossc %d, front end %d (%s | %s)" % (r1.returncode, r2.returncode, r1.stderr[-200:], r2.stderr[-200:])
+    if r1.returncode != 0:
+        return "both rejected: " + r1.stderr[-200:]
+    r3 = subprocess.run([sys.executable, "-m", "compiler.back_end.cpp.emboss_codegen_cpp", "--color-output", "never", "--input-file",
+                         os.path.join(d, "ir.json"), "--output-file", os.path.join(d, out2)], capture_output=True, text=True,
+                        cwd=common.REPO, env=env, timeout=300)
+    if r3.returncode != 0:
+        return "codegen failed: " + r3.stderr[-300:]
+    a = open(os.path.join(d, out1)).read()
+    b = open(os.path.join(d, out2)).read()
+    if a != b:
+        return "outputs differ: embossc wrote %d bytes, the split pipeline left %d bytes" % (len(a), len(b))
+    return None
+
+
+def check_pipeline_histories():
+    """The two build paths stay equivalent over (a) repeated builds into the same output files, in every order of a long
+    and a short module, and (b) every order of three import directories two of which hold different files of one name."""
+    viol, n = [], 0
+    env = dict(os.environ, PYTHONHASHSEED="0", PYTHONPATH=common.REPO)
+    long_m = '[$default byte_order: "LittleEndian"]\nstruct Aa:\n  0 [+1]  UInt  x\nstruct Bb:\n  0 [+2]  UInt  y\n  2 [+2]  Aa[2]  zs\nenum Ee:\n  VV = 1\n'
+    short_m = '[$default byte_order: "LittleEndian"]\nstruct Aa:\n  0 [+1]  UInt  x\n'
+    for seq in itertools.product((long_m, short_m), repeat=2):
+        d = tempfile.mkdtemp(prefix="embverif-")
+        try:
+            for step, text in enumerate(seq):
+                with open(os.path.join(d, "m.emb"), "w") as f:
+                    f.write(text)
+                n += 1
+                r = _both_pipelines(d, "m.emb", ["."], "one.h", "two.h", env)
+                if r:
+                    viol.append({"key": "split-pipeline-differs:rebuild", "msg": "build %d of %s into the same output files: %s" % (
+                        step + 1, ["long" if t is long_m else "short" for t in seq], r)})
+                    break
+        finally:
+            shutil.rmtree(d, ignore_errors=True)
+    dirs = ["src", "site_overrides", "emboss_stock"]
+    for order in itertools.permutations(dirs):
+        d = tempfile.mkdtemp(prefix="embverif-")
+        try:
+            for k, sub in enumerate(dirs):
+                os.mkdir(os.path.join(d, sub))
+            with open(os.path.join(d, "src", "main.emb"), "w") as f:
+                f.write('import "stamp.emb" as st\n[$default byte_order: "LittleEndian"]\nstruct Mm:\n  0 [+st.Stamp.$size_in_bytes]  st.Stamp  s\n')
+            for sub, size in (("site_overrides", 4), ("emboss_stock", 8)):
+                with open(os.path.join(d, sub, "stamp.emb"), "w") as f:
+                    f.write('[$default byte_order: "LittleEndian"]\nstruct Stamp:\n  0 [+%d]  UInt  t\n' % size)
+            n += 1
+            r = _both_pipelines(d, "main.emb", list(order), "one.h", "two.h", env)
+            if r:
+                viol.append({"key": "split-pipeline-differs:import-dirs", "msg": "import dirs %s: %s" % (list(order), r)})
+            else:
+                first = [x for x in order if x != "src"][0]
+                want = "4" if first == "site_overrides" else "8"
+                hdr = open(os.path.join(d, "one.h")).read() if os.path.exists(os.path.join(d, "one.h")) else ""
+                import re as _re
+                m = _re.search(r"IntrinsicSizeInBytes\(\)[^;]*?Maybe</\*\*/ ::std::int32_t>\((\d+)\)", hdr)
+                # (the size constant is checked through the generated header text only when the pattern is found)
+                if m and m.group(1) != want:
+                    viol.append({"key": "import-dir-order-ignored", "msg": "import dirs %s: Stamp resolved to the %s-byte file" % (list(order), m.group(1))})
+        finally:
+            shutil.rmtree(d, ignore_errors=True)
+    return {"viol": viol, "n": n, "nt": ["pipeline-histories-%d" % i for i in range(n)], "cov": [], "stats": {"subprocess_runs": n}}
+
+
 def check_files(files, main, label, do_sub):
     e = common.emb()
     ser = e.ir_data_utils.IrDataSerializer
@@ -225,6 +305,8 @@ def check_files(files, main, label, do_sub):
 
 
 def check_case(case):
+    if case.get("kind") == "pipeline-histories":
+        return check_pipeline_histories()
     if case["kind"] == "text":
         return check_files(case["files"], case["main"], case["label"], case["subprocess"])
     if case["kind"] == "corpus":
